@@ -15,7 +15,7 @@ from .c01 import shape_sig, compare_channels
 
 PROP = 'C02'
 LEVEL = 'exploration'
-N = {'quick': 18000, 'thorough': 1500000}
+N = {'quick': 15000, 'thorough': 1500000}
 BUDGET = {'quick': 45, 'thorough': 900}
 RULE = ('seeded segment histories (2-12 segments, 1-4 channels) whose per-object header encodings are drawn from '
         '{full, matches-previous, no-data, unlisted} with kTocNewObjList / kTocMetaData on or off, re-ordered '
